@@ -162,7 +162,7 @@ def ordering_rule(repo: Repo, m: ModuleInfo, res: CheckResult, prop: str = "C15"
                     problems.append("the key depends on the source spelling")
                 # origins are compared by identity; their repr is not injective (two classes made by one factory function, two
                 # TypeVars named T): without an identity component such members tie and keep the written order
-                if not any(isinstance(c, ast.Call) and norm(c.func) == "id" and c.args and norm(c.args[0]) == f"{obj}.origin"
+                if not any(isinstance(c, ast.Call) and norm(c.func) == "id" and c.args and f"{obj}.origin" in norm(c.args[0])
                            for c in ast.walk(r.value)):
                     problems.append("the key of a normalised type identifies its origin by repr only: distinct classes / TypeVars "
                                     "with the same module and name tie (Union[A1, A2] != Union[A2, A1])")
